@@ -58,7 +58,12 @@ def kind_of(v):
     return "?"
 
 
-def var_view(v, clazz=None):
+def sid(c, pns):
+    """id of a class as bound under a parent namespace (XmlMetaBuilder.build(clazz, parent_namespace))"""
+    return cid(c) + "@" + ("" if pns is None else pns)
+
+
+def var_view(v, clazz=None, child_ns=None):
     fac = v.factory
     d = {"name": v.name, "qname": v.qname, "local_name": v.local_name, "index": v.index, "kind": kind_of(v),
          "list": bool(v.list_element), "factory": getattr(fac, "__name__", None) if fac else None,
@@ -66,7 +71,7 @@ def var_view(v, clazz=None):
          "required": bool(v.required), "init": bool(v.init), "mixed": bool(v.mixed), "nillable": bool(v.nillable),
          "namespaces": list(v.namespaces or ()), "process_contents": v.process_contents, "any_type": bool(v.any_type),
          "format": v.format, "sequence": v.sequence, "wrapper": v.wrapper,
-         "types": [type_view(t) for t in v.types], "clazz": cid(v.clazz) if v.clazz else None}
+         "types": [type_view(t) for t in v.types], "clazz": sid(v.clazz, child_ns) if v.clazz else None}
     dv = v.default() if callable(v.default) else v.default
     d["default"] = None if (dv is None or dv == [] or dv == ()) else lexical(dv, v.format)
     enum_vals = None
@@ -74,7 +79,7 @@ def var_view(v, clazz=None):
         if isinstance(t, type) and issubclass(t, enum.Enum):
             enum_vals = [lexical(m.value) for m in t]
     d["enum"] = enum_vals
-    d["choices"] = [var_view(c) for c in v.elements.values()] + [var_view(c) for c in v.wildcards]
+    d["choices"] = [var_view(c, None, child_ns) for c in v.elements.values()] + [var_view(c, None, child_ns) for c in v.wildcards]
     for c in d["choices"]:
         c["wild"] = c["kind"] == "wildcard"
     if clazz is not None:
@@ -89,19 +94,22 @@ def field_has_default(clazz, name):
     return True
 
 
-def class_view(ctx, c, dcs=()):
-    m = ctx.build(c)
+def class_view(ctx, m, c, pns, dcs=()):
+    """View of class c as bound under parent namespace pns (m = XmlMetaBuilder.build(c, pns)).  A class without
+    Meta.namespace inherits the namespace of the place where it is used, so the same class has one view per parent
+    namespace; its children are bound under THIS view's namespace (ElementNode.build_element_node)."""
     xsi = {}
     for o in dcs:
         tq = ctx.build(o).target_qname
         if tq and tq not in xsi:
             sub = ctx.find_subclass(c, tq)
             if sub is not None:
-                xsi[tq] = cid(sub)
-    return {"id": cid(c), "xsi": xsi, "qname": m.qname, "target_qname": m.target_qname, "nillable": bool(m.nillable),
-            "mixed_content": bool(m.mixed_content), "bases": [cid(b) for b in c.__mro__[1:] if dataclasses.is_dataclass(b)],
-            "elements": [var_view(v, c) for v in m.get_element_vars()],
-            "attributes": [var_view(v, c) for v in m.get_attribute_vars()]}
+                xsi[tq] = sid(sub, pns)                 # XmlContext.fetch builds the subclass with the same parent_ns
+    return {"id": sid(c, pns), "class": cid(c), "pns": pns, "xsi": xsi, "qname": m.qname, "target_qname": m.target_qname,
+            "nillable": bool(m.nillable), "mixed_content": bool(m.mixed_content),
+            "bases": [cid(b) for b in c.__mro__[1:] if dataclasses.is_dataclass(b)],
+            "elements": [var_view(v, c, m.namespace) for v in m.get_element_vars()],
+            "attributes": [var_view(v, c, m.namespace) for v in m.get_attribute_vars()]}
 
 
 def roundtrip(ctx, root_cls, doc):
@@ -175,31 +183,34 @@ def run_one(p, oset):
         if root_cls is None:
             out["status"], out["error"] = "no_root_class", {"type": "NoRootClass", "message": p["root"], "where": None}
             return out
-        out["root_class"] = cid(root_cls)
-        # binding metadata, built in the order and with the parent namespaces the parser itself uses
-        # (XmlContext caches the first build of a class; ElementNode.build_element_node passes the
-        # namespace of the parent class)
+        out["root_class"] = sid(root_cls, None)
+        # binding metadata per (class, parent namespace): every way a class can be reached from the root, each bound by a
+        # fresh, uncached XmlMetaBuilder.build(clazz, parent_namespace) exactly as ElementNode.build_element_node /
+        # XmlContext.fetch would on a cold cache (XmlContext itself caches the FIRST build of a class)
         try:
-            work, seen, order = [(root_cls, None)], set(), []
+            builder = probe.get_builder()            # never the context the documents are parsed with: its cache stays cold
+            work, seen = [(root_cls, None)] + [(c, None) for c in dcs if c is not root_cls], set()
+            reached = set()
             while work:
                 c, pns = work.pop(0)
-                if c in seen:
+                if pns is None and c is not root_cls and c in reached:
+                    continue                        # only classes the root does not reach get a view of their own
+                reached.add(c)
+                if (c, pns) in seen:
                     continue
-                seen.add(c)
-                m = ctx.build(c, pns)
-                order.append(c)
+                seen.add((c, pns))
+                m = builder.build(c, pns)
+                view = class_view(probe, m, c, pns, dcs)
+                out["classes"].append(view)
+                by_cid = {cid(x): x for x in dcs}
+                # whatever find_subclass may return for an xsi:type here is bound under the same parent namespace
+                work.extend((by_cid[v.partition("@")[0]], pns) for v in view["xsi"].values() if v.partition("@")[0] in by_cid)
                 for v in m.get_element_vars():
                     for w in [v] + list(v.elements.values()):
                         for t in w.types:
                             if dataclasses.is_dataclass(t):
                                 work.append((t, m.namespace))
-                                work.extend((s, m.namespace) for s in dcs if s is not t and issubclass(s, t))
-            for c in dcs:
-                if c not in seen:
-                    ctx.build(c)
-                    order.append(c)
-            for c in order:
-                out["classes"].append(class_view(ctx, c, dcs))
+                                work.extend((s_, m.namespace) for s_ in dcs if s_ is not t and issubclass(s_, t))
         except BaseException as e:  # noqa
             out["status"], out["error"] = "bind_error", {"type": type(e).__name__, "message": str(e)[:300], "where": cid(c)}
             return out
@@ -207,9 +218,15 @@ def run_one(p, oset):
             out["docs"].append(roundtrip(ctx, root_cls, doc))
         by_id = {cid(c): c for c in dcs}
         for x in (p.get("extra") or {}).get(oset["name"], []):
-            if isinstance(x, dict):                     # a witness replayed directly on the class it is about
-                c = by_id.get(x["class"])
-                out["extra"].append(roundtrip(ctx, c, x["doc"]) if c else {"err": "NoSuchClass", "msg": x["class"], "stage": "?"})
+            if isinstance(x, dict):                     # a witness replayed directly on the class view it is about
+                name, _, pns = x["class"].partition("@")
+                c = by_id.get(name)
+                if c is None:
+                    out["extra"].append({"err": "NoSuchClass", "msg": x["class"], "stage": "?"})
+                    continue
+                ctx2 = XmlContext()
+                ctx2.build(c, pns or None)              # the view under test: bound under that parent namespace
+                out["extra"].append(roundtrip(ctx2, c, x["doc"]))
             else:
                 out["extra"].append(roundtrip(ctx, root_cls, x))
         if p.get("want_source"):
